@@ -178,6 +178,10 @@ class PathEnum:
         a = self.db.adts.get(adt) if adt else None
         if a and a["dk"] == "Enum":
             return {v["discr"]: v["name"] for v in a["variants"]}
+        if adt and adt not in self.db.adts:
+            ev = self.db.ext_variants(adt)
+            if ev:
+                return ev
         return None
 
     # -- conditions -----------------------------------------------------
@@ -306,6 +310,11 @@ class PathEnum:
                             v = r["o"]["k"].get("v", r["o"]["k"].get("t"))
                     elif r["k"] == "agg" and r.get("ak") == "adt":
                         v = r["var"] if not r["f"] else "%s(..)" % r["var"]
+                    elif r["k"] == "ref" and all(e == "*" for e in r["p"][1]):
+                        dd = self.single.get(r["p"][0])
+                        if dd and dd[0] == "a" and dd[3]["r"]["k"] == "use" and dd[3]["r"]["o"].get("k") is not None:
+                            kk = dd[3]["r"]["o"]["k"]
+                            v = kk.get("v", kk.get("t"))
                     # invalidate keys rooted at this place
                     for k2 in [k for k in state if k == key or k.startswith(key + ".") or k.startswith(key + "@")]:
                         del state[k2]
